@@ -61,7 +61,7 @@ def validate(seed):
             evd = os.path.join(SCR, "ev-" + sid)
             os.makedirs(evd, exist_ok=True)
             for p in PROPS:
-                rc, out = run(["/verif/bin/circlcheck", "-property", p, "-tier", "quick", "-repo", wt, "-evidence", os.path.join(evd, p + ".json")], "/verif", timeout=3600)
+                rc, out = run([os.environ.get("CIRCLCHECK", "/verif/bin/circlcheck"), "-property", p, "-tier", "quick", "-repo", wt, "-evidence", os.path.join(evd, p + ".json")], "/verif", timeout=3600)
                 if "VIOLATION" in out:
                     lines = [l.strip() for l in out.splitlines() if ": violated:" in l or ": undecided:" in l]
                     det[p] = [l[:260] for l in lines[:3]]
@@ -100,7 +100,7 @@ def validate(seed):
         evd = os.path.join(SCR, "ev-" + sid)
         os.makedirs(evd, exist_ok=True)
         for p in PROPS:
-            rc, out = run(["/verif/bin/circlcheck", "-property", p, "-tier", "quick", "-repo", wt, "-evidence", os.path.join(evd, p + ".json")], "/verif", timeout=3600)
+            rc, out = run([os.environ.get("CIRCLCHECK", "/verif/bin/circlcheck"), "-property", p, "-tier", "quick", "-repo", wt, "-evidence", os.path.join(evd, p + ".json")], "/verif", timeout=3600)
             if "VIOLATION" in out:
                 lines = [l.strip() for l in out.splitlines() if ": violated:" in l or ": undecided:" in l]
                 det[p] = [l[:260] for l in lines[:3]]
